@@ -372,24 +372,50 @@ def _omitted_value(wr, sl, f):
 
 def _arrays(ctx, prog):
     pads = {}
+
+    def pad_and_err(b):
+        """(pads five entries to six?, length != 6 -> InvalidLength?, term of the pad value)"""
+        pad = err = False
+        padv = None
+        for bi, t in b.calls():
+            n = cname(callee_name(t))
+            grows_to_six = n == 'Vec::push' or (n == 'Vec::resize' and util.const_val(strip(b.op_term(t['args'][1], (bi, None)))) == 6)
+            if grows_to_six:
+                gs = [(strip(g), opw.truth(k)) for g, k, sw in b.guard_terms(bi)]
+                if any(isinstance(g, tuple) and g[0] == 'bin' and g[1] == 'Eq' and util.const_val(g[3]) == 5 and 'len' in show(g[2], maxdepth=3) and v is True for g, v in gs):
+                    pad = True
+                    padv = strip(b.op_term(t['args'][-1], (bi, None)))
+        for t, d, rb in b.return_values():
+            t = strip(t)
+            if isinstance(t, tuple) and t[0] == 'agg' and 'Err' in t[1] and 'InvalidLength' in show(t, maxdepth=4):
+                gs = [(strip(g), opw.truth(k)) for g, k, sw in b.guard_terms(d[1])]
+                if any(isinstance(g, tuple) and g[0] == 'bin' and g[1] == 'Ne' and util.const_val(g[3]) == 6 and v is True for g, v in gs):
+                    err = True
+        return pad, err, padv
+
     for name, rty in (('read_offsets', 'Result<[f64; 6]'), ('read_sign_corrections', 'Result<[i8; 6]')):
         bs = [b for p, b in prog.bodies.items() if p.startswith('parameters_from_file::') and b.kind != 'Closure' and rty in util.sig(b)[0]]
         if not ctx.check(len(bs) == 1, 'R19.3', name + '/exists', '', name, 'array reader not found'):
             continue
         b = bs[0]
         ctx.fn(b)
-        pad = err = False
-        for bi, t in b.calls():
-            n = cname(callee_name(t))
-            grows_to_six = n == 'Vec::push' or (n == 'Vec::resize' and util.const_val(strip(b.op_term(t['args'][1], (bi, None)))) == 6)
-            if grows_to_six:
-                pads[name.replace('read_', '')] = util.const_val(strip(b.op_term(t['args'][-1], (bi, None))))
-                gs = [(strip(g), opw.truth(k)) for g, k, sw in b.guard_terms(bi)]
-                pad = pad or any(isinstance(g, tuple) and g[0] == 'bin' and g[1] == 'Eq' and util.const_val(g[3]) == 5 and 'len' in show(g[2], maxdepth=3) and v is True for g, v in gs)
-        for t, d, rb in b.return_values():
-            t = strip(t)
-            if isinstance(t, tuple) and t[0] == 'agg' and 'Err' in t[1] and 'InvalidLength' in show(t, maxdepth=4):
-                gs = [(strip(g), opw.truth(k)) for g, k, sw in b.guard_terms(d[1])]
-                err = any(isinstance(g, tuple) and g[0] == 'bin' and g[1] == 'Ne' and util.const_val(g[3]) == 6 and v is True for g, v in gs)
-        ctx.check(pad and err, 'R19.3', name, b.where(0), b.path, 'a five-entry array must be padded to six and any other length must yield InvalidLength', found='pad=%s error=%s' % (pad, err))
+        pad, err, padv = pad_and_err(b)
+        where = b
+        if not (pad or err):
+            # padding and length check may live in a helper shared by both readers: fn(Vec<T>, fill) -> Result<[T; 6], _>
+            for bi, t in b.calls():
+                cb = prog.bodies.get(t['callee'].get('resolved'))
+                if cb is None or cb.kind == 'Closure' or not (cb.arg_count >= 1 and 'Vec<' in cb.local_ty(1) and '; 6]' in cb.local_ty(0)):
+                    continue
+                rvs = [strip(x[0]) for x in b.return_values()]
+                if strip(b.call_term(t, (bi, None))) not in rvs:
+                    continue
+                ctx.fn(cb)
+                pad, err, padv = pad_and_err(cb)
+                where = cb
+                pi = util.param_index(padv) if padv is not None else None
+                if pi is not None and pi - 1 < len(t['args']):
+                    padv = strip(b.op_term(t['args'][pi - 1], (bi, None)))
+        pads[name.replace('read_', '')] = util.const_val(padv) if padv is not None else None
+        ctx.check(pad and err, 'R19.3', name, where.where(0), where.path, 'a five-entry array must be padded to six and any other length must yield InvalidLength', found='pad=%s error=%s' % (pad, err))
     return pads
